@@ -10,6 +10,7 @@ import (
 	"net/http"
 	"net/http/httptest"
 	"net/url"
+	"sync"
 	"sync/atomic"
 	"time"
 
@@ -286,9 +287,106 @@ func c13Web(e *Env) error {
 	return nil
 }
 
+// embedded API, shared scans: a query that arrived first leaves the coalesced scan early (LIMIT directly on the scan);
+// a query that arrived later runs into its deadline on a later row; a third one runs to the end. Every one of them
+// that comes back incomplete must come back with an error.
+func c13Coalesced(e *Env) error {
+	r := e.R
+	for iter := 0; iter < e.N; iter++ {
+		tb := genTable(r, map[string]bool{})
+		tb.Where = nil
+		tb.GroupBy = nil
+		pts := genDBPoints(r, &tb, 16+r.Intn(16))
+		c := &jDBCase{Table: tb, Points: pts}
+		if r.Intn(2) == 0 {
+			c.FlushAfter = []int{len(pts) / 2}
+		}
+		dir := tempDir()
+		coalesce := 120 * time.Millisecond
+		db, err := zenodb.NewDB(&zenodb.DBOpts{Dir: dir, VirtualTime: true, IterationCoalesceInterval: coalesce, Panic: quietPanic})
+		if err == nil {
+			err = db.ApplySchema(zenodb.Schema{"t": &zenodb.TableOpts{MinFlushLatency: time.Hour, MaxFlushLatency: 2 * time.Hour,
+				RetentionPeriod: time.Duration(tb.RetNS), SQL: tb.SQL()}})
+		}
+		if err == nil {
+			_, err = loadHistory(db, c, e)
+		}
+		if err != nil {
+			if db != nil {
+				db.Close()
+			}
+			rmDir(dir)
+			return err
+		}
+		_, full, ferr := runQuery(db, "SELECT * FROM t", true)
+		if ferr != nil || len(full) < 6 {
+			db.Close()
+			rmDir(dir)
+			continue
+		}
+		stallAt := 3 + r.Intn(3)
+		type res struct {
+			rows []obsRow
+			err  error
+		}
+		out := make([]res, 3)
+		sqls := []string{fmt.Sprintf("SELECT * FROM t LIMIT %d", 1+r.Intn(2)), "SELECT * FROM t", "SELECT * FROM t"}
+		var wg sync.WaitGroup
+		for i := range sqls {
+			wg.Add(1)
+			go func(i int) {
+				defer wg.Done()
+				time.Sleep(time.Duration(6*i) * time.Millisecond)
+				ctx := context.Background()
+				budget := coalesce + 250*time.Millisecond
+				start := time.Now()
+				if i == 1 {
+					var cancel context.CancelFunc
+					ctx, cancel = context.WithTimeout(ctx, budget)
+					defer cancel()
+				}
+				src, perr := db.Query(sqls[i], false, nil, true)
+				if perr != nil {
+					out[i].err = perr
+					return
+				}
+				n := 0
+				_, out[i].err = src.Iterate(ctx, core.FieldsIgnored, func(fr *core.FlatRow) (bool, error) {
+					out[i].rows = append(out[i].rows, obsRow{TS: time.Unix(0, fr.TS), Key: fr.Key.AsMap(), Vals: append([]float64(nil), fr.Values...)})
+					n++
+					if i == 1 && n == stallAt {
+						if d := budget - time.Since(start) + 40*time.Millisecond; d > 0 {
+							time.Sleep(d)
+						}
+					}
+					return true, nil
+				})
+			}(i)
+		}
+		wg.Wait()
+		for i := 1; i < 3; i++ {
+			complete := sameRows(out[i].rows, full)
+			e.Case(fmt.Sprintf("RepEmbedded %s %s", gbool(complete), gbool(out[i].err != nil)),
+				&jRepCase{Kind: "coalesced", Desc: fmt.Sprintf("member %d of [%q after 0ms; SELECT * with a deadline passing on row %d after 6ms; SELECT * after 12ms] rows=%d/%d err=%v",
+					i, sqls[0], stallAt, len(out[i].rows), len(full), out[i].err), NT: !complete})
+			if complete {
+				e.Count("coalesced_complete")
+			} else {
+				e.Count("coalesced_incomplete")
+			}
+		}
+		db.Close()
+		rmDir(dir)
+	}
+	return nil
+}
+
 func runC13(e *Env) error {
 	fmt.Fprintf(e.v, "From Zeno Require Import Base Report.\nOpen Scope Z_scope.\nDefinition cases : list rep_case := [\n")
 	if err := c13Embedded(e); err != nil {
+		return err
+	}
+	if err := c13Coalesced(e); err != nil {
 		return err
 	}
 	if e.Mode != "nocluster" {
